@@ -259,6 +259,16 @@ func cmdAPI(in, out string) error {
 			})
 			b, _ := json.Marshal(map[string]any{"pkg": f.Name.Name, "calls": calls})
 			res.Out = string(b)
+		case "histobs2":
+			// package name and, per statement, the call terms of the code: a term is a call of a function that is
+			// not one of the transparent wrappers, with its arguments as terms (integer literals, identifiers, calls)
+			f, err := parser.ParseFile(token.NewFileSet(), "x.go", r.Src, parser.ParseComments)
+			if err != nil {
+				res.Err = err.Error()
+				break
+			}
+			b, _ := json.Marshal(map[string]any{"pkg": f.Name.Name, "body": histTerms(f)})
+			res.Out = string(b)
 		case "cmtobs":
 			o, err := observeComments(r.Src)
 			if err != nil {
@@ -350,4 +360,61 @@ func observeImports(src string) (*impObs, error) {
 		return true
 	})
 	return o, nil
+}
+
+
+// HistTerm mirrors the term records of spec/History.tla.
+type HistTerm struct {
+	F    string      `json:"f"`
+	N    int         `json:"n"`
+	Args []*HistTerm `json:"args"`
+}
+
+var histTransparent = map[string]bool{"wrap": true, "append": true, "first": true, "last": true, "other": true,
+	"run": true, "run2": true, "use": true, "keep": true}
+
+func histTermOf(e ast.Expr) *HistTerm {
+	switch x := e.(type) {
+	case *ast.BasicLit:
+		if x.Kind == token.INT {
+			v, _ := strconv.Atoi(x.Value)
+			return &HistTerm{F: "lit", N: v, Args: []*HistTerm{}}
+		}
+		return &HistTerm{F: "id:" + x.Value, Args: []*HistTerm{}}
+	case *ast.Ident:
+		if x.Name == "x" {
+			return &HistTerm{F: "lit", N: 0, Args: []*HistTerm{}}
+		}
+		return &HistTerm{F: "id:" + x.Name, Args: []*HistTerm{}}
+	case *ast.ParenExpr:
+		return histTermOf(x.X)
+	case *ast.CallExpr:
+		name := "?"
+		if id, ok := x.Fun.(*ast.Ident); ok {
+			name = id.Name
+		}
+		t := &HistTerm{F: name, Args: []*HistTerm{}}
+		for _, a := range x.Args {
+			t.Args = append(t.Args, histTermOf(a))
+		}
+		return t
+	}
+	return &HistTerm{F: "id:?", Args: []*HistTerm{}}
+}
+
+// histTerms lists the maximal non-transparent calls of the file in source order.
+func histTerms(f *ast.File) []*HistTerm {
+	out := []*HistTerm{}
+	ast.Inspect(f, func(n ast.Node) bool {
+		c, ok := n.(*ast.CallExpr)
+		if !ok {
+			return true
+		}
+		if id, ok := c.Fun.(*ast.Ident); ok && !histTransparent[id.Name] {
+			out = append(out, histTermOf(c))
+			return false
+		}
+		return true
+	})
+	return out
 }
